@@ -132,7 +132,7 @@ def exRun : Trace :=
    (9, .wr 8), (9, .wgDone 27), (1, .wgWait 27), (1, .wr 7), (1, .rd 11), (1, .wr 12), (1, .spawn 20), (1, .recv 35),
    (1, .send 4), (0, .recv 4), (0, .close 13), (1, .wr 5), (1, .spawn 10), (2, .recvC 13), (2, .close 2),
    (20, .start), (20, .recvC 2), (20, .close 1), (1, .recvC 1), (1, .lock 8), (1, .rd 11), (1, .unlock 8),
-   (1, .wgDone 12), (0, .wgWait 12), (0, .rd 11), (10, .start)]
+   (1, .close 14), (0, .recvC 14), (0, .rd 11), (1, .wgDone 12), (10, .start)]
 
 set_option maxRecDepth 100000 in
 example : Interleaving exSched.prog exRun := interleaving_of_B _ _ (by decide)
@@ -140,6 +140,6 @@ set_option maxRecDepth 100000 in
 example : feasible exRun = true := by decide
 /-- every event of every thread has been executed, except the last two of the archive writer, which waits for a
 block that the single data block of this instance never fills -/
-example : exRun.length = 106 ∧ totalEvents exSched = 108 := by decide
+example : exRun.length = 107 ∧ totalEvents exSched = 109 := by decide
 
 end DastardV.C17
